@@ -165,9 +165,10 @@ static void conv_eval(mpz_srcptr v, bool secure, CaseStat &cs, bool rec) {
 		else if (mpz_cmp(back2, v) != 0) viol("C09/convert/gcry-to-mpz-wrong-value", "tmcg_mpz_set_gcry_mpi differs from the value the MPI was built from", wit());
 		else if (lo != mpz_get_ui(v)) viol("C09/convert/get_gcry_mpi_ui-wrong", "tmcg_get_gcry_mpi_ui != low word", wit().kv("got_ui", (unsigned long long)lo));
 		// stream operators (the text the Bigint wrapper prints)
-		std::stringstream s1, s2; s1 << v; s2 << (const gcry_mpi_t)h; MS.cv_stream++;
-		Z rd; std::stringstream s3(s1.str() + "\n"); s3 >> (mpz_ptr)rd;
-		if (s1.str() != mpz_b62(v) || s2.str() != s1.str() || mpz_cmp(rd, v)) viol("C09/convert/stream-text-differs", "operator<< / operator>> text round trip", wit().kv("mpz_text", shorten(s1.str())).kv("mpi_text", shorten(s2.str())));
+		std::stringstream s1, s2; Z rd; std::string swhat; MS.cv_stream++;
+		Exc sx = guard([&] { s1 << v; s2 << (const gcry_mpi_t)h; std::stringstream s3(s1.str() + "\n"); s3 >> (mpz_ptr)rd; }, &swhat);
+		if (sx != X_NONE) viol("C09/convert/stream-operator-threw", "operator<< / operator>> threw for a non-negative value", wit().kv("threw", swhat));
+		else if (s1.str() != mpz_b62(v) || s2.str() != s1.str() || mpz_cmp(rd, v)) viol("C09/convert/stream-text-differs", "operator<< / operator>> text round trip", wit().kv("mpz_text", shorten(s1.str())).kv("mpi_text", shorten(s2.str())));
 		if (cs.sample.empty() && bits > 64 && bits < 200) cs.sample = wit().str();
 		if (rec) record(J().kv("k", "cv").kz("v", v).kv("hex", gcry_hex(g)).kz("back", back).kv("txt", s2.str()).str());
 	}
